@@ -73,6 +73,7 @@ type Call struct {
 	ErrVal error `json:"-"`
 	Fault  string
 	Conn   int
+	Stale  bool // receiver's entry was unlinked/overwritten before this call (fenced fid)
 }
 
 func (c *Call) String() string {
@@ -175,6 +176,7 @@ type FS struct {
 	maxConc      int
 	sumConc      int64
 	faultsPaused bool
+	live         map[int]*H
 
 	// Options
 	NoWalkGetAttr  bool // WalkGetAttr returns ENOSYS (server falls back to Walk+GetAttr)
@@ -335,6 +337,11 @@ func conflict(x, y *Call) bool {
 	if x.Class == ClassGlob || y.Class == ClassGlob {
 		return true
 	}
+	if x.Stale || y.Stale {
+		// a fenced handle's remembered path no longer names its object:
+		// only the server-wide (global class) exclusion above applies
+		return false
+	}
 	if x.Path == y.Path && (x.Class == ClassWrite || y.Class == ClassWrite) {
 		return true
 	}
@@ -389,6 +396,9 @@ func (fs *FS) enter(h *H, method string, o enterOpts) (*Call, error) {
 		c.H = h.id
 		c.Path = h.pathStr()
 		c.Conn = h.conn
+		h.pmu.Lock()
+		c.Stale = h.stale
+		h.pmu.Unlock()
 	}
 	fs.evmu.Lock()
 	c.Enter = rawpeer.Tick()
@@ -598,6 +608,34 @@ func (g *Gate) Release() {
 	g.fs.evmu.Unlock()
 }
 
+// markStale flags every handle whose remembered path is at or below path: the
+// entry it named is gone (unlinked or overwritten), so calls through it no
+// longer concern whatever is or will be at that path. fs.mu is held.
+func (fs *FS) markStale(path []string) {
+	fs.evmu.Lock()
+	hs := make([]*H, 0, len(fs.live))
+	for _, h := range fs.live {
+		hs = append(hs, h)
+	}
+	fs.evmu.Unlock()
+	for _, h := range hs {
+		h.pmu.Lock()
+		if len(h.path) >= len(path) {
+			same := true
+			for i := range path {
+				if h.path[i] != path[i] {
+					same = false
+					break
+				}
+			}
+			if same {
+				h.stale = true
+			}
+		}
+		h.pmu.Unlock()
+	}
+}
+
 // ---- read-out ----
 
 // Calls returns the call log from index from on.
@@ -734,6 +772,7 @@ type H struct {
 	conn   int
 	pmu    sync.Mutex
 	path   []string
+	stale  bool  // the entry this handle's path named was unlinked or overwritten (the fid is fenced)
 	node   *Node // pinned at Open/Create
 	opened bool
 	flags  p9.OpenFlags
@@ -757,6 +796,10 @@ func (fs *FS) newHandle(path []string, by string, conn int) *H {
 	fs.evmu.Lock()
 	fs.nextH++
 	h := &H{fs: fs, id: fs.nextH, conn: conn, path: path}
+	if fs.live == nil {
+		fs.live = map[int]*H{}
+	}
+	fs.live[h.id] = h
 	fs.handles[h.id] = &HState{ID: h.id, CreatedBy: by, Path: "/" + strings.Join(path, "/")}
 	fs.evmu.Unlock()
 	return h
@@ -861,6 +904,10 @@ func (h *H) WalkGetAttr(names []string) (qids []p9.QID, f p9.File, m p9.AttrMask
 	}
 	h.fs.mu.Lock()
 	n, rerr := f.(*H).cur()
+	var at p9.Attr
+	if rerr == nil {
+		at = n.attr()
+	}
 	h.fs.mu.Unlock()
 	if rerr != nil {
 		// cannot happen: walk just resolved it under the same lock... but the
@@ -869,7 +916,7 @@ func (h *H) WalkGetAttr(names []string) (qids []p9.QID, f p9.File, m p9.AttrMask
 		err = rerr
 		return nil, nil, p9.AttrMask{}, p9.Attr{}, err
 	}
-	return qids, f, p9.AttrMaskAll, n.attr(), nil
+	return qids, f, p9.AttrMaskAll, at, nil
 }
 
 func (h *H) StatFS() (st p9.FSStat, err error) {
@@ -935,6 +982,9 @@ func (h *H) SetAttr(valid p9.SetAttrMask, attr p9.SetAttr) (err error) {
 func (h *H) Close() (err error) {
 	c, ferr := h.fs.enter(h, "Close", enterOpts{})
 	defer func() { h.fs.exit(h, c, err) }()
+	h.fs.evmu.Lock()
+	delete(h.fs.live, h.id)
+	h.fs.evmu.Unlock()
 	if ferr != nil {
 		return ferr
 	}
@@ -1336,6 +1386,7 @@ func (h *H) RenameAt(oldName string, newDir p9.File, newName string) (err error)
 			return linux.ENOTDIR
 		}
 		ex.Nlink--
+		h.fs.markStale(append(t.pathCopy(), newName))
 	}
 	delete(sd.Children, oldName)
 	dd.Children[newName] = n
@@ -1363,6 +1414,7 @@ func (h *H) UnlinkAt(name string, flags uint32) (err error) {
 	}
 	delete(d.Children, name)
 	n.Nlink--
+	h.fs.markStale(append(h.pathCopy(), name))
 	return nil
 }
 
